@@ -49,7 +49,15 @@ def run_contracts(report: Report, contracts: list[Contract], jobs=None, prop_fil
                 continue
             if ob.verdict == VIOLATED:
                 replay(c, ob)
-            elif ob.verdict == UNDECIDED and c.search is not None and "outside verified subset" not in str(ob.detail.get("reason", "")):
+            elif ob.verdict == UNDECIDED and c.search is not None and "#subset[" in ob.id:
+                # the code left the verified subset: the prover is silent, but a natively replayed counterexample
+                # of a postcondition is still a counterexample
+                for clause in c.post:
+                    extra = Ob(ob.id.replace("#subset[", f"#{clause}["), UNDECIDED, detail=dict(ob.detail), target=ob.target)
+                    native_search(c, extra)
+                    if extra.verdict == VIOLATED:
+                        report.add(extra)
+            elif ob.verdict == UNDECIDED and c.search is not None:
                 native_search(c, ob)
             report.add(ob)
         report.function(target=c.name, paths=info.get("paths"), kind_combinations=info.get("combos"), wall_s=round(dt, 2),
@@ -71,7 +79,14 @@ def evaluate_native(c: Contract, clause_fn, args):
         return False, f"precondition raised {type(e).__name__}: {e}", None
     try:
         names = [p for p, _ in c.params]
-        res = c.native(*[a for n, a in zip(names, args) if n not in c.ghost])
+        import inspect
+
+        try:
+            arity = len(inspect.signature(c.native).parameters)
+        except (TypeError, ValueError):
+            arity = None
+        # ghost parameters that stand for global state are passed to natives that take them
+        res = c.native(*args) if arity == len(args) else c.native(*[a for n, a in zip(names, args) if n not in c.ghost])
     except Exception as e:
         allowed = None
         for name, cond in c.raises.items():
@@ -97,6 +112,8 @@ def replay(c: Contract, ob: Ob, tries=400):
     """Replay the solver's counterexample on the real function; if the model does not reproduce
     (uninterpreted functions chosen adversarially), search the contract natively for a failing input."""
     if c.native is None:
+        if c.search is not None:
+            native_search(c, ob)
         return
     clause, fn = _native_clause(c, ob)
     names = [p for p, _ in c.params]
@@ -113,6 +130,10 @@ def replay(c: Contract, ob: Ob, tries=400):
             return
     except Exception as e:  # model value not usable natively
         ob.detail["replay_of_model"] = {"error": f"{type(e).__name__}: {e}"}
+    if c.search is not None:
+        native_search(c, ob)
+        if ob.replayed:
+            return
     # native search over boundary + random inputs of the same kinds
     rnd = random.Random(int(os.environ.get("VERIF_SEED", "0")) + 7)
     kinds = (ob.detail.get("kinds") or "").split(",")
